@@ -97,6 +97,10 @@ def generate(seed, tier):
             s['recalc'] = 1
         if kind == 'dict':
             s['order'] = srng.perm(n_items) if k else list(range(n_items))
+            if k and nb == 1 and len(world['books'][0]) == 1 and \
+                    srng.chance(.5):
+                # the one-sheet dictionary of the README: 'A1', 'RATE'
+                s['placement'] = dict(pl, bare=True)
         else:
             s['mode'] = srng.weighted([('loads', 3), ('root', 2),
                                        ('actors', 2), ('todict', 1)])
